@@ -171,6 +171,7 @@ type qgen struct {
 	g     *hc.Gen
 	prep  bool
 	ansi  bool
+	tbl   bool // only the columns a, b, c / a, d of the tables t, u (NULLs and duplicates) and deterministic functions: evaluated on them
 	konst bool // only constants, operators and whitelisted deterministic functions: the query can be evaluated without tables
 }
 
@@ -212,6 +213,9 @@ func (q *qgen) numLit() string {
 }
 
 func (q *qgen) ident() string {
+	if q.tbl {
+		return q.pick("a", "a", "b", "c")
+	}
 	switch q.g.Intn(8) {
 	case 0:
 		return "`" + q.pick("a b", "c`d", "e\\f", "select", "x\ny", "é", "q\"r", "") + "`"
@@ -231,6 +235,17 @@ var safeFuncs = []string{"coalesce", "if", "ifnull", "nullif", "ceil", "floor", 
 	"len", "byte_len", "lpad", "rpad", "substr", "instr", "replace", "base64_encode", "hex_encode", "md5", "string", "integer", "float", "boolean", "ternary", "typeof", "width"}
 
 func (q *qgen) atom() string {
+	if q.tbl {
+		switch q.g.Intn(9) {
+		case 0:
+			return q.numLit()
+		case 1:
+			return q.pick("'x'", "'y'", "''", "'10'", "',' ")
+		case 2:
+			return q.kw(q.pick("true", "false", "unknown", "null"))
+		}
+		return q.pick("a", "b", "c", "c", "c", "t.a", "t.c", "d")
+	}
 	n := 10
 	if q.konst {
 		n = 5
@@ -302,6 +317,9 @@ func (q *qgen) expr(d int) string {
 	if q.konst {
 		n = 24
 	}
+	if q.tbl {
+		n = 30
+	}
 	d--
 	switch q.g.Intn(n) {
 	case 0, 1, 2:
@@ -348,7 +366,7 @@ func (q *qgen) expr(d int) string {
 		}
 		return s + " " + q.kw("end")
 	case 18, 19:
-		if !q.konst && q.g.Intn(12) == 0 {
+		if !q.konst && !q.tbl && q.g.Intn(12) == 0 {
 			// a user-defined function whose name needs quoting
 			return q.pick("`my func`", "`f-1`", "`select`", "`f`") + "(" + q.exprList(d, 0, 2) + ")"
 		}
@@ -388,6 +406,9 @@ func (q *qgen) expr(d int) string {
 }
 
 func (q *qgen) table(d int) string {
+	if q.tbl {
+		return q.pick("t", "t", "t", "u", "t x", "u as y", "(select a, c from t) s", "(select distinct a from u) s")
+	}
 	var s string
 	switch q.g.Intn(12) {
 	case 0:
@@ -437,6 +458,9 @@ func (q *qgen) selectEntity(d int) string {
 		switch {
 		case !q.konst && q.g.Intn(12) == 0:
 			fields[i] = q.pick("*", "t.*", "`a b`.*")
+			if q.tbl {
+				fields[i] = "*"
+			}
 		default:
 			fields[i] = q.expr(d)
 			if q.g.Intn(4) == 0 {
@@ -448,10 +472,10 @@ func (q *qgen) selectEntity(d int) string {
 	if q.konst {
 		return s
 	}
-	if q.g.Intn(12) == 0 {
+	if !q.tbl && q.g.Intn(12) == 0 {
 		s += " into @a" + q.pick("", ", @b")
 	}
-	if q.g.Intn(4) != 0 {
+	if q.tbl || q.g.Intn(4) != 0 {
 		s += q.sp() + q.from(d)
 	}
 	if q.g.Intn(3) == 0 {
@@ -488,7 +512,7 @@ func (q *qgen) selectQuery(d int) string {
 	case 2:
 		s += " offset " + q.expr(0)
 	}
-	if q.g.Intn(25) == 0 {
+	if !q.tbl && q.g.Intn(25) == 0 {
 		s += " for update"
 	}
 	if q.g.Intn(20) == 0 {
@@ -505,6 +529,193 @@ func genQuery(g *hc.Gen, prep, ansi, konst bool) string {
 		s += ";"
 	}
 	return s
+}
+
+func genTableQuery(g *hc.Gen, ansi bool) string {
+	q := &qgen{g: g, ansi: ansi, tbl: true}
+	return q.selectQuery(1 + g.Intn(3))
+}
+
+// ---------- the tables the queries are evaluated on: NULLs and duplicates in every column ----------
+
+var tableFiles = map[string]string{
+	"t.csv": "a,b,c\n1,x,10\n2,y,\n3,x,10\n4,,30\n5,y,\n6,z,20\n2,y,\n,x,20\n7,,\n",
+	"u.csv": "a,d\n1,p\n2,q\n2,r\n9,s\n,t\n3,\n",
+}
+
+// clauseMatrix: every combination of the optional parts of the grammar's productions (each production's options
+// exhaustively, which covers all pairs), as queries on t / u. `eval` = the query reads only t / u and is evaluated.
+// Where the options of a clause only matter together with another item of the select list (csvq identifies analytic,
+// aggregate and list function calls by their printed text) both variants stand side by side.
+func clauseMatrix() (out []struct {
+	text string
+	eval bool
+}) {
+	add := func(eval bool, s string) {
+		out = append(out, struct {
+			text string
+			eval bool
+		}{s, eval})
+	}
+	dirs := []string{"", " asc", " desc"}
+	nulls := []string{"", " nulls first", " nulls last"}
+	for _, d := range dirs {
+		for _, n := range nulls {
+			add(true, "select a, c from t order by c"+d+n+", a")
+			add(true, "select a, c from t order by b"+d+n+", c"+n+d[:0]+", a desc")
+			add(true, "select a, rank() over (order by c"+d+n+") from t")
+			add(true, "select a, first_value(a) over (partition by b order by c"+d+n+", a) from t")
+			add(true, "select listagg(c, ',') within group (order by c"+d+n+") from t")
+			add(true, "select b, json_agg(c) within group (order by c"+d+n+") from t group by b")
+			add(true, "select a from t order by c"+d+n+" limit 3")
+			for _, d2 := range dirs {
+				for _, n2 := range nulls {
+					if d == d2 && n == n2 {
+						continue
+					}
+					// two calls that differ only in the order item
+					add(true, "select a, rank() over (order by c"+d+n+"), rank() over (order by c"+d2+n2+") from t")
+					if d < d2 || n < n2 {
+						add(true, "select listagg(a, ',') within group (order by c"+d+n+", a), listagg(a, ',') within group (order by c"+d2+n2+", a) from t")
+					}
+				}
+			}
+		}
+	}
+	// LIMIT / FETCH / OFFSET
+	for _, unit := range []string{"", " percent", " rows", " row"} {
+		for _, restr := range []string{"", " with ties", " only"} {
+			for _, off := range []string{"", " offset 1", " offset 2 rows", " offset 1 row"} {
+				n := "3"
+				if unit == " percent" {
+					n = "40"
+				}
+				add(true, "select a, c from t order by c desc nulls last limit "+n+unit+restr+off)
+			}
+		}
+	}
+	for _, off := range []string{"", "offset 1 ", "offset 2 rows ", "offset 1 row "} {
+		for _, pos := range []string{"first", "next"} {
+			for _, cnt := range []string{"2 rows", "1 row", "40 percent"} {
+				for _, restr := range []string{"only", "with ties"} {
+					add(true, "select a, c from t order by c nulls first "+off+"fetch "+pos+" "+cnt+" "+restr)
+				}
+			}
+		}
+	}
+	for _, off := range []string{"offset 2", "offset 2 rows", "offset 1 row"} {
+		add(true, "select a from t order by a "+off)
+	}
+	// DISTINCT
+	for _, dq := range []string{"", "distinct "} {
+		add(true, "select "+dq+"b from t order by b")
+		add(true, "select "+dq+"b, c from t order by b, c")
+		add(true, "select count("+dq+"b), sum("+dq+"c), min("+dq+"c), avg("+dq+"c) from t")
+		add(true, "select listagg("+dq+"b, ',') within group (order by b) from t")
+		add(true, "select listagg("+dq+"b, ',') from (select b from t order by b) s")
+		add(true, "select json_agg("+dq+"c) within group (order by c) from t")
+		add(true, "select a, count("+dq+"b) over (partition by c) from t")
+		add(true, "select a, listagg("+dq+"b, ',') over (partition by c) from t")
+	}
+	add(true, "select count(b), count(distinct b), sum(c), sum(distinct c) from t")
+	add(true, "select a, count(b) over (), count(distinct b) over () from t")
+	add(true, "select listagg(b, ',') within group (order by b), listagg(distinct b, ',') within group (order by b) from t")
+	// IGNORE NULLS (F20: printed inside the parentheses) and the functions that take it
+	for _, fn := range []string{"first_value(c)", "last_value(c)", "nth_value(c, 2)", "lag(c)", "lead(c)", "lag(c, 2, 0)"} {
+		for _, ign := range []string{"", " ignore nulls"} {
+			add(true, "select a, "+fn+ign+" over (order by a) from t")
+		}
+	}
+	// frames
+	lows := []string{"unbounded preceding", "1 preceding", "current row", "1 following"}
+	highs := []string{"1 preceding", "current row", "1 following", "unbounded following"}
+	for _, lo := range lows[:3] {
+		add(true, "select a, sum(c) over (order by a rows "+lo+") from t")
+		add(true, "select a, sum(c) over (order by a rows "+lo+"), sum(c) over (order by a) from t")
+	}
+	for _, lo := range lows {
+		for _, hi := range highs {
+			add(true, "select a, sum(c) over (order by a rows between "+lo+" and "+hi+") from t")
+			add(true, "select a, last_value(c) over (partition by b order by a rows between "+lo+" and "+hi+"), last_value(c) over (partition by b order by a) from t")
+		}
+	}
+	for _, part := range []string{"", "partition by b "} {
+		for _, ord := range []string{"", "order by a "} {
+			add(true, "select a, count(*) over ("+part+ord+"), sum(c) over ("+part+ord+") from t")
+			add(true, "select a, row_number() over ("+part+ord+"), ntile(2) over ("+part+ord+") from t")
+		}
+	}
+	// joins
+	for _, kind := range []string{"", "inner ", "left ", "right ", "full ", "left outer ", "right outer ", "full outer "} {
+		for _, lat := range []string{"", "lateral "} {
+			tab := "u"
+			if lat != "" {
+				tab = "(select a, d from u) s"
+			}
+			add(true, "select t.a, c, d from t "+kind+"join "+lat+tab+" on t.a = "+map[bool]string{true: "s", false: "u"}[lat != ""]+".a order by t.a, d")
+			add(true, "select a, c, d from t "+kind+"join "+lat+tab+" using (a) order by a, d")
+		}
+		if !strings.HasPrefix(kind, "full") {
+			add(true, "select a, c, d from t natural "+kind+"join u order by a, d")
+		}
+	}
+	for _, lat := range []string{"", "lateral "} {
+		add(true, "select t.a, s.a from t cross join "+lat+"(select a from u) s order by t.a, s.a")
+		add(true, "select t.a, s.a from t, "+lat+"(select a from u) s order by t.a, s.a")
+	}
+	for _, as := range []string{" ", " as "} {
+		add(true, "select x.a from t"+as+"x order by x.a")
+		add(true, "select a"+as+"k, c"+as+"`l b` from t order by a")
+	}
+	// set operators
+	for _, op := range []string{"union", "intersect", "except"} {
+		for _, all := range []string{"", " all"} {
+			add(true, "select a from t "+op+all+" select a from u")
+			add(true, "select a from t "+op+all+" (select a from u "+op+" select a from t where a > 2)")
+		}
+	}
+	// WITH
+	for _, rec := range []string{"", "recursive "} {
+		for _, f := range []string{"", " (n)"} {
+			add(true, "with "+rec+"ct"+f+" as (select a from t) select * from ct order by 1")
+		}
+	}
+	add(true, "with recursive ct (n) as (select 1 union all select n + 1 from ct where n < 4) select n from ct")
+	add(true, "with c1 as (select a from t), c2 (x, y) as (select a, d from u) select * from c1, c2 order by 1, 2, 3")
+	// WHERE / GROUP BY / HAVING
+	for _, w := range []string{"", " where c is not null"} {
+		for _, g := range []string{"", " group by b", " group by b having count(*) > 1"} {
+			add(true, "select "+map[bool]string{true: "count(*)", false: "b, count(*)"}[g == ""]+" from t"+w+g+" order by 1")
+		}
+	}
+	// negations, CASE forms, SUBSTRING forms, IS / BETWEEN / IN / LIKE
+	for _, not := range []string{"", " not"} {
+		add(true, "select a, c is"+not+" null, b"+not+" like 'x', c"+not+" between 10 and 20, a"+not+" in (1, 2, 3), b is"+not+" null from t order by a")
+		add(true, "select a, c"+not+" in (select a * 10 from u) from t order by a")
+	}
+	for _, v := range []string{"", " c"} {
+		for _, el := range []string{"", " else 'e'"} {
+			w := "when c > 10 then 'big'"
+			if v != "" {
+				w = "when 10 then 'ten' when 20 then 'twenty'"
+			}
+			add(true, "select a, case"+v+" "+w+el+" end from t order by a")
+		}
+	}
+	add(true, "select substring(b from 1), substring(b from 1 for 1), substring(b, 1), substring(b, 1, 1) from t")
+	for _, q := range []string{"any", "all"} {
+		add(true, "select a, a = "+q+" (select a from u), a > "+q+" (1, 2) from t order by a")
+	}
+	add(true, "select a, exists (select 1 from u where u.a = t.a) from t order by a")
+	// printed only (state changing or needing a session): FOR UPDATE, INTO, cursors
+	add(false, "select a from t for update")
+	add(false, "select a from t order by a limit 1 for update")
+	add(false, "select a into @x from t limit 1")
+	add(false, "select a, c into @x, @y from t where a = 1")
+	for _, st := range []string{"is open", "is not open", "is in range", "is not in range", "count"} {
+		add(false, "select cursor cur "+st)
+	}
+	return out
 }
 
 var _ = fmt.Sprintf
